@@ -25,7 +25,7 @@ pub struct Worker {
 }
 
 impl Worker {
-    pub fn spawn(dir: &Path, clock: Option<u64>, gate_gc: bool) -> Option<Worker> {
+    pub fn spawn(dir: &Path, clock: Option<u64>, gate_gc: bool, http: bool) -> Option<(Worker, Value)> {
         let exe = std::env::current_exe().unwrap();
         let mut cmd = Command::new(exe);
         cmd.arg("worker").arg(dir);
@@ -34,6 +34,9 @@ impl Worker {
         }
         if gate_gc {
             cmd.arg("--gate-gc");
+        }
+        if http {
+            cmd.arg("--http");
         }
         let mut child = cmd
             .stdin(Stdio::piped())
@@ -55,7 +58,7 @@ impl Worker {
             let _ = w.child.wait();
             return None;
         }
-        Some(w)
+        Some((w, ready))
     }
     fn read_line(&mut self) -> Value {
         let mut s = String::new();
@@ -89,7 +92,7 @@ pub struct Family {
     pub contents: BTreeMap<String, Vec<u8>>,
 }
 
-pub fn family(seed: u64) -> Family {
+pub fn family(seed: u64, http: bool) -> Family {
     let tsets: Vec<[&str; 6]> = vec![
         // tA, tAB, tABC, tB, tE, tU
         ["a", "ab", "abc", "b", "", "é"],
@@ -101,7 +104,12 @@ pub fn family(seed: u64) -> Family {
         ["xs.context.", "xs.context.a", "xs.context.a.b", "xs.contexu", "", "xs"],
     ];
     let mut rng = StdRng::seed_from_u64(seed);
-    let ts = tsets[rng.gen_range(0..tsets.len())];
+    let mut ts = tsets[rng.gen_range(0..tsets.len())];
+    if http {
+        // the request line carries the topic verbatim: keep to URL-safe ASCII there
+        ts = [tsets[0], tsets[1], tsets[5], tsets[6]][rng.gen_range(0..4)];
+        ts[5] = "u~u";
+    }
     let mut topics = BTreeMap::new();
     for (tok, s) in ["tA", "tAB", "tABC", "tB", "tE", "tU"].iter().zip(ts.iter()) {
         topics.insert(tok.to_string(), s.to_string());
@@ -115,6 +123,7 @@ pub fn family(seed: u64) -> Family {
         }
     }
     topics.insert("xs.context".into(), "xs.context".into());
+    topics.insert("xs.start".into(), "xs.start".into());
     topics.insert("tNUL0".into(), format!("\0{}", ts[0]));
     topics.insert("tNUL1".into(), format!("{}\0{}", ts[0], ts[3]));
     topics.insert("tNUL2".into(), format!("{}\0", ts[1]));
@@ -221,6 +230,7 @@ pub struct Run {
     pub topics_used: BTreeSet<String>,
     pub ndirs: u32,
     pub dead: bool,
+    pub http: bool,
 }
 
 fn idref(s: &str) -> Value {
@@ -228,12 +238,12 @@ fn idref(s: &str) -> Value {
 }
 
 impl Run {
-    pub fn new(root: &Path, seed: u64, wb: i64, gate_gc: bool, probes: usize) -> Run {
+    pub fn new(root: &Path, seed: u64, wb: i64, gate_gc: bool, probes: usize, http: bool) -> Run {
         let dir = root.join("s0");
         std::fs::create_dir_all(&dir).unwrap();
         let mut r = Run {
             seed,
-            fam: family(seed),
+            fam: family(seed, http),
             rng: StdRng::seed_from_u64(seed ^ 0x9e3779b97f4a7c15),
             dir,
             root: root.to_path_buf(),
@@ -253,13 +263,34 @@ impl Run {
             topics_used: BTreeSet::new(),
             ndirs: 1,
             dead: false,
+            http,
         };
-        r.w = Worker::spawn(&r.dir, Some(r.now()), gate_gc);
-        if r.w.is_none() {
-            r.dead = true;
-            r.events.push(json!({"e": "crash", "at": "open"}));
-        }
+        r.start_worker();
         r
+    }
+    /// (re)start the store process; in HTTP mode the server announces itself with an xs.start frame
+    fn start_worker(&mut self) -> bool {
+        match Worker::spawn(&self.dir, Some(self.now()), self.gate_gc, self.http) {
+            None => {
+                self.w = None;
+                self.dead = true;
+                self.events.push(json!({"e": "crash", "at": "open"}));
+                false
+            }
+            Some((w, ready)) => {
+                self.w = Some(w);
+                if !ready["start"].is_null() {
+                    let f = ready["start"].clone();
+                    let id = f["id"].as_str().unwrap_or("").to_string();
+                    self.known_ids.push(id);
+                    self.topics_used.insert("xs.start".into());
+                    let a = self.abs_frame(&f);
+                    self.events.push(json!({"e": "append", "ctx": a["ctx"], "topic": a["topic"], "ttl": a["ttl"],
+                        "meta": a["meta"], "hash": a["hash"], "ok": true, "id": a["id"], "f": a, "status": 0}));
+                }
+                true
+            }
+        }
     }
     pub fn now(&self) -> u64 {
         BASE_MS + self.t * UNIT_MS + self.o
@@ -343,6 +374,15 @@ impl Run {
     // ------------------------------------------------------------------ operations
 
     pub fn op_append(&mut self, ctx_real: &str, topic: &str, ttl: &Value, meta: &str, content: &str) {
+        if self.dead {
+            return;
+        }
+        if self.http && topic.starts_with("tNUL") {
+            // a raw NUL cannot be sent in a request line; the model's k still advances
+            let t = self.t;
+            self.appended.entry(t).or_default().push(None);
+            return;
+        }
         let topic_s = self.fam.topics.get(topic).cloned().unwrap_or(topic.to_string());
         let meta_v = self.fam.metas.get(meta).cloned().unwrap_or(Value::Null);
         let content_v = self
@@ -387,7 +427,7 @@ impl Run {
             )
         };
         let mut ev = json!({"e": "append", "ctx": idref(ctx_real), "topic": topic, "ttl": ttl, "meta": meta,
-            "hash": content, "ok": ok, "id": idv, "f": fv});
+            "hash": content, "ok": ok, "id": idv, "f": fv, "status": resp["status"].as_i64().unwrap_or(0)});
         if let Some(p) = resp.get("panic") {
             ev["panic"] = p.clone();
         }
@@ -415,7 +455,8 @@ impl Run {
                 }
             }
         }
-        self.events.push(json!({"e": "import", "f": a, "ok": ok}));
+        self.events
+            .push(json!({"e": "import", "f": a, "ok": ok, "status": resp["status"].as_i64().unwrap_or(0)}));
     }
 
     pub fn op_import(&mut self, id_real: &str, ctx_real: &str, topic: &str, ttl: &Value, meta: &str) {
@@ -434,7 +475,8 @@ impl Run {
             return;
         }
         self.note_id(id_real);
-        self.events.push(json!({"e": "remove", "id": idref(id_real)}));
+        self.events
+            .push(json!({"e": "remove", "id": idref(id_real), "status": resp["status"].as_i64().unwrap_or(0)}));
     }
 
     pub fn op_tick(&mut self, n: u64) {
@@ -466,11 +508,15 @@ impl Run {
             "ctx": ctx.map(idref).unwrap_or(json!(-1)),
             "last": last.map(idref).unwrap_or(json!(-2)),
             "lim": lim.map(|x| json!(x)).unwrap_or(json!(-1)),
-            "res": res});
+            "res": res, "status": resp["status"].as_i64().unwrap_or(0)});
         if let Some(p) = resp.get("panic") {
             ev["panic"] = p.clone();
         }
         self.events.push(ev);
+        if resp["renderings_agree"] == json!(false) {
+            self.events.push(json!({"e": "bad", "class": "renderings_differ", "status": 0, "expect": "agree",
+                "same": false, "next": 200}));
+        }
     }
 
     pub fn op_get(&mut self, id: &str) {
@@ -484,10 +530,14 @@ impl Run {
         } else {
             vec![self.abs_frame(&resp["frame"].clone())]
         };
-        self.events.push(json!({"e": "get", "id": idref(id), "res": res}));
+        self.events
+            .push(json!({"e": "get", "id": idref(id), "res": res, "status": resp["status"].as_i64().unwrap_or(0)}));
     }
 
     pub fn op_head(&mut self, topic: &str, ctx: &str) {
+        if self.http && topic.starts_with("tNUL") {
+            return; // a raw NUL cannot travel in a request line
+        }
         let topic_s = self.fam.topics.get(topic).cloned().unwrap_or(topic.to_string());
         let resp = self.call(json!({"op": "head", "topic": topic_s, "ctx": ctx}));
         if Self::failed(&resp) {
@@ -499,7 +549,8 @@ impl Run {
         } else {
             vec![self.abs_frame(&resp["frame"].clone())]
         };
-        self.events.push(json!({"e": "head", "topic": topic, "ctx": idref(ctx), "res": res}));
+        self.events.push(json!({"e": "head", "topic": topic, "ctx": idref(ctx), "res": res,
+            "status": resp["status"].as_i64().unwrap_or(0)}));
     }
 
     fn abs_dump(&mut self, d: &Value) -> Value {
@@ -590,13 +641,10 @@ impl Run {
             w.stop();
         }
         self.o += 1;
-        self.w = Worker::spawn(&self.dir, Some(self.now()), self.gate_gc);
-        if self.w.is_none() {
-            self.dead = true;
-            self.events.push(json!({"e": "crash", "at": "open"}));
+        self.events.push(json!({"e": "reopen"}));
+        if !self.start_worker() {
             return;
         }
-        self.events.push(json!({"e": "reopen"}));
     }
 
     /// C20: export everything the source returns and import it, permuted and with duplicates,
@@ -611,7 +659,8 @@ impl Run {
         // the read above is an observation too
         let res: Vec<Value> = frames.iter().map(|f| self.abs_frame(f)).collect();
         self.events
-            .push(json!({"e": "read", "path": "sync", "ctx": -1, "last": -2, "lim": -1, "res": res}));
+            .push(json!({"e": "read", "path": "sync", "ctx": -1, "last": -2, "lim": -1, "res": res,
+                "status": resp["status"].as_i64().unwrap_or(0)}));
         // contents
         let mut blobs: Vec<(String, Value)> = vec![];
         for f in &frames {
@@ -628,15 +677,12 @@ impl Run {
         self.ndirs += 1;
         std::fs::create_dir_all(&self.dir).unwrap();
         self.o += 1;
-        self.w = Worker::spawn(&self.dir, Some(self.now()), self.gate_gc);
-        if self.w.is_none() {
-            self.dead = true;
-            self.events.push(json!({"e": "crash", "at": "open"}));
-            return;
-        }
         self.known_ids.clear();
         self.eph_ids.clear();
         self.ctxs.clear();
+        if !self.start_worker() {
+            return;
+        }
         for (h, c) in blobs {
             if c.is_string() {
                 let r = self.call(json!({"op": "cas_put", "content": c}));
@@ -681,7 +727,20 @@ impl Run {
         v
     }
 
+    pub fn op_bad(&mut self, class: &str) {
+        let resp = self.call(json!({"op": "bad", "class": class}));
+        if Self::failed(&resp) {
+            return;
+        }
+        self.events.push(json!({"e": "bad", "class": class, "status": resp["status"], "expect": resp["expect"],
+            "same": resp["same"], "next": resp["next_status"]}));
+    }
+
     pub fn random_probes(&mut self, n: usize) {
+        if self.http && self.rng.gen_range(0..3) == 0 {
+            let c = crate::http::BAD_CLASSES[self.rng.gen_range(0..crate::http::BAD_CLASSES.len())];
+            self.op_bad(c);
+        }
         for _ in 0..n {
             match self.rng.gen_range(0..10) {
                 0..=4 => {
@@ -873,11 +932,11 @@ impl Run {
 }
 
 /// one behaviour: {"b": n, "W": 8, "seed": s, "ops": [...]}
-pub fn run_behaviour(root: &Path, beh: &Value, gate_gc: bool, probes: usize) -> Vec<Value> {
+pub fn run_behaviour(root: &Path, beh: &Value, gate_gc: bool, probes: usize, http: bool) -> Vec<Value> {
     let b = beh["b"].as_i64().unwrap_or(0);
     let seed = beh["seed"].as_u64().unwrap_or(b as u64);
     let wb = beh["W"].as_i64().unwrap_or(8);
-    let mut run = Run::new(root, seed, wb, gate_gc, probes);
+    let mut run = Run::new(root, seed, wb, gate_gc, probes, http);
     for op in beh["ops"].as_array().cloned().unwrap_or_default() {
         run.exec_abstract(&op);
         let k = op["op"].as_str().unwrap_or("");
